@@ -44,8 +44,28 @@ def sig1(draw, twod=False, nmax=None):
     N = draw(st.integers(1, nmax or (24 if twod else 65)))
     batch = tuple(draw(st.sampled_from([(), (), (1,), (3,), (2, 2), (3, 2)])))
     shape = batch + ((N, N) if twod else (N,))
-    kind = draw(st.sampled_from(["complex", "real", "float32", "complex64", "int", "impulse", "uint8", "int16"]))
-    if kind == "complex":
+    kind = draw(st.sampled_from(["complex", "real", "float32", "complex64", "int", "impulse", "uint8", "int16", "padded_odd_mode"]))
+    if kind == "padded_odd_mode":
+        # what an optics user transforms: a zero-padded frame holding a mode that is odd about the pupil centre (tilt, coma),
+        # or +1/-1 impulse pairs - rows (or columns) that are not empty but whose samples cancel exactly, most rows empty
+        n = draw(st.integers(1, max(1, N // 2)))
+        v = np.arange(n) - (n - 1) / 2.0                                  # exactly antisymmetric, halves are exact
+        if draw(st.booleans()) or n < 2:
+            v = np.zeros(n)
+            v[0], v[-1] = (1.0, -1.0) if n >= 2 else (0.0, 0.0)
+        o = draw(st.integers(0, N - n))
+        x = np.zeros(shape)
+        if twod:
+            w = np.array([draw(gen.dyadic(-2, 2, 8)) or 1.0 for _ in range(n)])
+            blk = np.outer(w, v)
+            if draw(st.booleans()):
+                blk = blk.T
+            x[..., o:o + n, o:o + n] = blk
+        else:
+            x[..., o:o + n] = v
+        if draw(st.booleans()):
+            x = x.astype(draw(st.sampled_from(["int16", "complex128"]))) if np.all(x == np.round(x)) else x.astype("complex128")
+    elif kind == "complex":
         x = draw(gen.complex_array(shape, kind="dense"))
     elif kind == "real":
         x = draw(gen.float_array(shape, kind="dense"))
